@@ -13,6 +13,8 @@
 (*        is better                                                        *)
 (*   ReturnFailure        : the program has no feasible point              *)
 (*   ReturnInaccurate     : always (makes no claim)                        *)
+(* With make_soft_problem the same contract holds for the relaxation (the  *)
+(* boolean flags dropped; bounds kept).                                    *)
 (* The generated programs have integral polytopes (interval rows, integer  *)
 (* data) or only integer variables, so "no feasible point is better" and   *)
 (* "no feasible point" are decided exactly on the integer lattice of the   *)
@@ -64,16 +66,18 @@ ASSUME \A i \in 1..Len(Traces) : TLCSet(i, <<0, "init">>)
 VARIABLES tid, done, why
 vars == <<tid, done, why>>
 Tr == Traces[tid]
+\* optimize(make_soft_problem = TRUE): the boolean flags are dropped, the program solved is the relaxation
+Prog == IF "soft" \in DOMAIN Tr /\ Tr.soft THEN [Tr.p EXCEPT !.bools = [j \in 1..Tr.p.n |-> FALSE]] ELSE Tr.p
 
 Init == tid \in 1..Len(Traces) /\ done = FALSE /\ why = ""
 
 ReturnSolution ==
   /\ ~done /\ Tr.kind = "solution"
-  /\ why' = SolutionClause(Tr.p, Tr.K, Tr.tol, Tr.vtol, Tr.x, Tr.v)
+  /\ why' = SolutionClause(Prog, Tr.K, Tr.tol, Tr.vtol, Tr.x, Tr.v)
   /\ done' = TRUE /\ UNCHANGED tid
 ReturnFailure ==
   /\ ~done /\ Tr.kind = "failure"
-  /\ why' = IF Feasible(Tr.p) = {} THEN "" ELSE "failure_reported_but_feasible"
+  /\ why' = IF Feasible(Prog) = {} THEN "" ELSE "failure_reported_but_feasible"
   /\ done' = TRUE /\ UNCHANGED tid
 ReturnInaccurate ==
   /\ ~done /\ Tr.kind = "inaccurate"
